@@ -40,6 +40,26 @@ def run(repo: Repo, tier: str) -> Report:
     def ob(rule, role, ok, detail="", stmt=None, kind=""):
         rep.ob(rule, FILE, "tinterpolate", role, ok, detail, stmt if stmt is not None else role, kind=kind)
 
+    # ---- R-ACC (typed IR): for every declared signature the daily curve is solved in float64. With lambda = 1e-5 the pivots are 1 + O(1e-5);
+    # float32 (eps 6e-8 relative to values of 1e4) loses the penalty between marks, so the period means drift by whole units.
+    from ..typedir import typed_facts
+    tf = [f for f in typed_facts(repo.root, ["tinterpolate"]) if f["kernel"] == "tinterpolate"]
+    rep.floor("typed tinterpolate signatures", len(tf), 1)
+    n_solver = 0
+    for f in tf:
+        if not f["ok"]:
+            ob("NB-TYPES", f"signature {f['args']} types", False, f["error"][:200], f"tinterpolate{tuple(f['args'])}")
+            continue
+        for c_ in f["calls"]:
+            if c_["callee"].split(":")[-1] != "ws2d":
+                continue
+            n_solver += 1
+            # the result type is the type of the solver's work arrays; 0/1 weights and int16-valued observations are exact in float32 arguments
+            ok = c_["ret"].startswith("array(float64")
+            ob("R-ACC", "the Whittaker solve of the daily series runs in float64 for every declared signature", ok,
+               f"under ({', '.join(f['args'])}) the solver is called with ({', '.join(c_['args'])}) and returns {c_['ret']}: a float32 solve at lambda = 1e-5 "
+               f"cannot resolve the penalty between marks", f"ws2d call typed {c_['ret']} for template {f['args'][1]}", kind="typed IR")
+    rep.floor("typed solver calls in tinterpolate", n_solver, 1)
     # ---- R-READONLY
     inputs = {x, template, labels, tout}
     aliases = dict()
